@@ -321,21 +321,25 @@ macro_rules! iter_clone {
     };
 }
 
-// @gen macro=iter_debug name=c06_debug props=C06 thorough=U0,0;U2,2
+// @gen macro=iter_debug name=c06_debug props=C06 thorough=U2,2,0,2;U2,2,1,2;U2,2,1,1;U3,3,1,2
 macro_rules! iter_debug {
-    ($name:ident, $N:ty, $n:expr) => {
+    ($name:ident, $N:ty, $n:expr, $i:expr, $b:expr) => {
         #[kani::proof]
-        #[kani::unwind(40)]
+        #[kani::unwind(100)]
         fn $name() {
-            let (it, snap, i, b) = any_iter_u8!($N, $n);
+            // concrete positions (symbolic slice bounds make core::fmt intractable for CBMC), symbolic contents
+            let snap: [u8; $n] = kani::any();
+            let arr: GenericArray<u8, $N> = GenericArray::from_array(snap);
+            let it = GenericArrayIter::<u8, $N> { array: ManuallyDrop::new(arr), index: $i, index_back: $b };
             let mut s1 = Sink { buf: [0; 64], len: 0 };
             let mut s2 = Sink { buf: [0; 64], len: 0 };
             write!(s1, "{:?}", it).unwrap();
-            write!(s2, "GenericArrayIter({:?})", &snap[i..b]).unwrap();
+            write!(s2, "GenericArrayIter({:?})", &snap[$i..$b]).unwrap();
             kani::assert(s1.len == s2.len, "C06.debug: same length as GenericArrayIter(<remaining slice>)");
             let k: usize = kani::any();
-            kani::assume(k < s1.len);
-            kani::assert(s1.buf[k] == s2.buf[k], "C06.debug: shows exactly the remaining elements");
+            if k < s1.len && k < 64 {
+                kani::assert(s1.buf[k] == s2.buf[k], "C06.debug: shows exactly the remaining elements");
+            }
             kani::cover!(true, "end reachable");
         }
     };
@@ -350,7 +354,9 @@ impl fmt::Write for Sink {
         let b = s.as_bytes();
         let mut i = 0;
         while i < b.len() {
-            self.buf[self.len] = b[i];
+            if self.len < 64 {
+                self.buf[self.len] = b[i];
+            }
             self.len += 1;
             i += 1;
         }
